@@ -43,7 +43,7 @@ def run_worker(spec, timeout=300):
 
 def run(ctx):
     rng = ctx.rng
-    n = ctx.scale(32, 1500)
+    n = ctx.scale(64, 1500)
     steps = 80 if ctx.tier == "quick" else 150
     specs = []
     for i in range(n):
